@@ -673,6 +673,8 @@ def vhost_route(case, xfh, host=None, force_attr=False):
             lines = ['GET %s HTTP/1.1' % case['path'], 'Host: ' + host]
             if xfh is not None:
                 lines.append('X-Forwarded-Host: ' + xfh)
+            if case.get('xff'):
+                lines.append('X-Forwarded-For: ' + case['xff'])
             w.feed(sock, [('\r\n'.join(lines) + '\r\n\r\n').encode('ascii')])
             out = w.written(sock)
             if not out.startswith(b'HTTP/1.1 '):
@@ -686,6 +688,8 @@ def vhost_route(case, xfh, host=None, force_attr=False):
         hs = Headers([('Host', host)])
         if xfh is not None:
             hs['X-Forwarded-Host'] = xfh
+        if case.get('xff'):
+            hs['X-Forwarded-For'] = case['xff']     # claims to come from a gateway: must not matter
         req = Request(sock, 'GET', 'http', case['path'], (1, 1), '', hs, server=w)
         w.inject(request_event(req, Response(req)))
         return req.path
@@ -959,6 +963,8 @@ def vhost_corpus():
         out.append(V(['10.0.0.1'], '6.6.6.6', 'a.example', 'b.example', gw_type=gt))
         out.append(V(['10.0.0.1'], '10.0.0.1', 'a.example', 'b.example', gw_type=gt))
     out.append(V(None, '6.6.6.6', 'a.example', 'b.example', gw_omitted=True))
+    out.append(V(['10.0.0.1'], '6.6.6.6', 'a.example', 'b.example', xff='10.0.0.1'))
+    out.append(V(['10.0.0.1'], '6.6.6.6', 'a.example', 'b.example', xff='10.0.0.1', via='e2e'))
     for gw in (['10.0.0.1'], []):
         for remote in ('10.0.0.1', '6.6.6.6'):
             for path in ('/', '/x'):
@@ -1051,6 +1057,13 @@ def gen_auth(rng):
           qop=rng.choice(['auth', 'auth', 'auth', None, None, 'auth-int', 'junk']),
           token=rng.choice(['Digest', 'Digest', 'digest', 'DIGEST']))
     if rng.random() < 0.3:
+        h['qop'] = rng.choice(['auth', None])
+        for k, v in (('algorithm', 'MD5'), ('opaque', 'op'), ('quote_all', True), ('sep', ',')):
+            if rng.random() < 0.2:
+                h[k] = v
+        case['hdr'] = h
+        return case                     # conforming header: only the credentials decide
+    if rng.random() < 0.3:
         h['algorithm'] = rng.choice(['MD5', 'MD5', 'MD5-sess', 'SHA1', 'junk', 'md5'])
     if rng.random() < 0.2:
         h['realm'] = rng.choice([x for x in REALMS if x != realm])
@@ -1123,7 +1136,7 @@ def gen_vhost(rng):
     gw = rng.choice(GATEWAYS[1:] + GATEWAYS[2:] + [None])
     return V(gw, rng.choice(REMOTES), rng.choice(['a.example', 'b.example', 'other.example', 'b.example:8000']), rng.choice(XFHS),
              path=rng.choice(['/', '/x', '/x/y']), via='e2e' if rng.random() < 0.15 else 'direct',
-             gw_type=rng.choice(['list', 'tuple', 'set']))
+             gw_type=rng.choice(['list', 'tuple', 'set']), xff=rng.choice([None, None, '10.0.0.1', '10.0.0.1, 6.6.6.6']))
 
 
 def gen_case(rng):
@@ -1149,7 +1162,7 @@ def vhost_product():
 def plan(tier, seed):
     if tier == 'quick':
         return ([{'kind': 'corpus'}, {'kind': 'grammar', 'max_drop': 1, 'part': 0, 'parts': 2}, {'kind': 'grammar', 'max_drop': 1, 'part': 1, 'parts': 2}]
-                + [{'kind': 'random', 'seed': seed * 1000 + i, 'n': 250} for i in range(13)])
+                + [{'kind': 'random', 'seed': seed * 1000 + i, 'n': 500} for i in range(13)])
     return ([{'kind': 'corpus'}, {'kind': 'vhost_product'}]
             + [{'kind': 'grammar', 'max_drop': 5, 'part': i, 'parts': 8} for i in range(8)]
             + [{'kind': 'random', 'seed': seed * 100000 + i, 'n': 6500} for i in range(60)])
